@@ -7,8 +7,11 @@
 use super::{MatchResult, compute_proceeds};
 use crate::error::CgtError;
 use crate::models::{GbpTransaction, Match, MatchRule, Operation};
+#[cfg(cgt_verif)]
+use crate::verif_map::HashMap;
 use chrono::NaiveDate;
 use rust_decimal::Decimal;
+#[cfg(not(cgt_verif))]
 use std::collections::HashMap;
 
 /// Number of days for B&B matching window.
